@@ -1,9 +1,466 @@
-"""Direct calls of linear_operator.utils.* and the functional API with world tensors (C13 op alphabet)."""
+"""Direct calls of linear_operator.utils.* and of the top-level functional API with world tensors: the part of
+the C13 op alphabet that does not go through operator methods.  Every tensor argument is a world tensor (any of
+the stressed layouts); every returned tensor is tracked by the conservation monitor."""
+from __future__ import annotations
+
+import hashlib
+import json
+import math
+
+import torch
+
+import linear_operator
+from linear_operator import utils as U
+from linear_operator.operators import LinearOperator
+from linear_operator.utils import cholesky as chol_mod
+from linear_operator.utils import interpolation, lanczos, permutation, sparse, toeplitz
+from linear_operator.utils.contour_integral_quad import contour_integral_quad
+from linear_operator.utils.minres import minres
+from linear_operator.utils.pinverse import stable_pinverse
+from linear_operator.utils.qr import stable_qr
+from sim import seams, storage
+
+UTIL_FNS = ["linear_cg", "minres", "lanczos_tridiag", "psd_safe_cholesky", "stable_qr", "stable_pinverse", "toeplitz", "sym_toeplitz",
+            "toeplitz_matmul", "sym_toeplitz_matmul", "toeplitz_getitem", "sym_toeplitz_dqf", "left_interp", "left_t_interp", "make_sparse",
+            "bdsmm", "sparse_getitem", "sparse_repeat", "to_sparse", "apply_permutation", "inverse_permutation", "ciq", "dsmm",
+            "f_solve", "f_inv_quad", "f_inv_quad_logdet", "f_root_decomposition", "f_root_inv_decomposition", "f_pivoted_cholesky",
+            "f_add_diagonal", "f_add_jitter", "f_diagonalization", "f_sqrt_inv_matmul", "detach_", "requires_grad_", "torch_fn"]
 
 
-def gen_util(gen, w):
-    return None
+# ----------------------------------------------------------------------------------------------------
+# generation
+
+
+def gen_util(g, w):
+    rng = g.rng
+    if not hasattr(g, "util_fns"):
+        g.util_fns = rng.sample(UTIL_FNS, rng.randint(4, 12))
+    fn = rng.choice(g.util_fns)
+    n = g.n
+    batch = list(g.batch)
+    ops = []
+
+    def T(data, role, **kw):
+        t, o = g.tensor_op(data, role, **kw)
+        ops.append(o)
+        return t
+
+    def psd():
+        return T(g.psd(n), "psd matrix")
+
+    def rhs(cols=None):
+        return T(g.randn(*(batch + [n, cols or rng.choice([1, 2, 3])])), "rhs")
+
+    def world_op(psd_only=True):
+        c = [o for o, r in w.objs.items() if (r.psd or not psd_only) and r.square]
+        return rng.choice(c) if c else None
+
+    a = {}
+    if fn == "linear_cg":
+        a = {"A": psd(), "rhs": rhs() if rng.random() < 0.8 or batch else T(g.randn(n), "rhs vector"), "n_tridiag": rng.choice([0, 0, 1, 2]),
+             "tolerance": rng.choice([None, 1e-3, 1e-8]), "max_iter": rng.choice([None, 0, 1, 3, 50])}
+        if a["n_tridiag"] and torch.Size(batch + [n, 1]) and rng.random() < 2:
+            a["max_tridiag_iter"] = rng.choice([1, 3, n])
+        if rng.random() < 0.4:
+            a["initial_guess"] = "like_rhs"
+        if rng.random() < 0.3:
+            a["precond"] = T(g.posvec(n), "diagonal preconditioner")
+        if rng.random() < 0.15:
+            a["zero_rhs"] = True
+    elif fn == "minres":
+        a = {"A": psd(), "rhs": rhs(), "max_iter": rng.choice([None, 1, 5, 50])}
+        if rng.random() < 0.5:
+            a["shifts"] = T(torch.tensor([0.0, 0.5, 2.0][: rng.randint(1, 3)], dtype=torch.float64), "shifts")
+            a["value"] = rng.choice([None, 1.0, -0.5])
+        if rng.random() < 0.2:
+            a["precond"] = T(g.posvec(n), "diagonal preconditioner")
+    elif fn == "lanczos_tridiag":
+        a = {"A": psd(), "max_iter": rng.choice([1, 3, n, n + 5])}
+        if rng.random() < 0.6:
+            a["init_vecs"] = T(g.randn(*(batch + [n, rng.choice([1, 2])])), "lanczos init vectors")
+    elif fn == "psd_safe_cholesky":
+        kind = rng.choice(["pd", "pd", "singular", "indefinite"])
+        A = g.psd(n)
+        if kind == "singular":
+            B = g.randn(*(batch + [n, max(1, n - 1)]))
+            A = B @ B.mT
+        elif kind == "indefinite":
+            A = A - 1.5 * float(A.diagonal(dim1=-2, dim2=-1).max()) * torch.eye(n, dtype=torch.float64) * rng.choice([0.0, 1.0])
+        a = {"A": T((A + A.mT) / 2, "matrix for cholesky"), "upper": rng.random() < 0.4, "jitter": rng.choice([None, 1e-6, 1e-3]),
+             "max_tries": rng.choice([None, 1, 4])}
+    elif fn in ("stable_qr", "stable_pinverse"):
+        k = rng.choice([max(1, n - 2), n, n + 2])
+        M = g.randn(*(batch + [n, k]))
+        if rng.random() < 0.3:
+            M[..., :, -1] = M[..., :, 0]  # rank deficient: the jitter path of stable_qr
+        a = {"M": T(M, "matrix")}
+    elif fn in ("toeplitz", "toeplitz_matmul", "toeplitz_getitem"):
+        col = g.randn(*(batch + [n]))
+        row = g.randn(*(batch + [n]))
+        row[..., 0] = col[..., 0]
+        a = {"col": T(col, "toeplitz column"), "row": T(row, "toeplitz row")}
+        if fn == "toeplitz_matmul":
+            a["rhs"] = rhs() if rng.random() < 0.8 or batch else T(g.randn(n), "rhs vector")
+        if fn == "toeplitz_getitem":
+            a["i"], a["j"] = rng.randrange(n), rng.randrange(n)
+    elif fn in ("sym_toeplitz", "sym_toeplitz_matmul"):
+        a = {"col": T(g.randn(*(batch + [n])), "toeplitz column")}
+        if fn == "sym_toeplitz_matmul":
+            a["rhs"] = rhs()
+    elif fn == "sym_toeplitz_dqf":
+        a = {"left": T(g.randn(*(batch + [2, n])), "left vectors"), "right": T(g.randn(*(batch + [2, n])), "right vectors")}
+    elif fn in ("left_interp", "left_t_interp", "make_sparse"):
+        m = n + 2
+        k = 2
+        idx = torch.stack([torch.tensor(sorted(rng.sample(range(m), k))) for _ in range(n)])
+        val = torch.rand(n, k, dtype=torch.float64, generator=g.tg) + 0.1
+        if fn == "make_sparse" and rng.random() < 0.3:
+            val = torch.zeros(n, k, dtype=torch.float64)  # the all-zero path
+        if batch and rng.random() < 0.5:
+            idx = idx.expand(*(batch + [n, k])).clone()
+            val = val.expand(*(batch + [n, k])).clone()
+        a = {"idx": T(idx, "interpolation indices", dtype="int64"), "val": T(val, "interpolation values")}
+        if fn == "left_interp":
+            a["rhs"] = T(g.randn(m, rng.choice([1, 2])), "rhs") if rng.random() < 0.8 else T(g.randn(m), "rhs vector")
+        elif fn == "left_t_interp":
+            a["rhs"] = T(g.randn(n, rng.choice([1, 2])), "rhs")
+            a["output_dim"] = m
+        else:
+            a["num_rows"] = m
+    elif fn in ("bdsmm", "dsmm", "sparse_getitem", "sparse_repeat", "to_sparse"):
+        M = g.randn(*(([2] if fn in ("bdsmm",) else []) + [n, n]))
+        M[M.abs() < 0.7] = 0.0
+        a = {"M": T(M, "matrix to sparsify")}
+        if fn in ("bdsmm", "dsmm"):
+            a["rhs"] = T(g.randn(*(([2] if fn == "bdsmm" else []) + [n, 2])), "rhs")
+        if fn == "sparse_getitem":
+            a["i"] = rng.randrange(n)
+        if fn == "sparse_repeat":
+            a["sizes"] = rng.choice([[2, 1], [1, 2], [2, 1, 1]])
+    elif fn in ("apply_permutation", "inverse_permutation"):
+        perm = torch.stack([torch.randperm(n, generator=g.tg) for _ in range(max(1, int(torch.Size(batch).numel())))]).reshape(batch + [n])
+        a = {"perm": T(perm, "permutation", dtype="int64")}
+        if fn == "apply_permutation":
+            a["M"] = psd()
+            a["which"] = rng.choice(["left", "right", "both"])
+            if rng.random() < 0.4:
+                a["op"] = world_op(False)
+    elif fn == "ciq":
+        o = world_op()
+        if o is None:
+            return None
+        r = w.objs[o]
+        nn = r.D.shape[-1]
+        a = {"op": o, "rhs": T(g.randn(*(list(r.D.shape[:-2]) + [nn, rng.choice([1, 2])])), "rhs"), "inverse": rng.random() < 0.5}
+    elif fn.startswith("f_"):
+        use_op = rng.random() < 0.5 and world_op() is not None
+        if use_op:
+            o = world_op()
+            r = w.objs[o]
+            a = {"input": o}
+            nn, bb = r.D.shape[-1], list(r.D.shape[:-2])
+        else:
+            a = {"input": psd()}
+            nn, bb = n, batch
+        if fn in ("f_solve", "f_inv_quad", "f_inv_quad_logdet", "f_sqrt_inv_matmul"):
+            a["rhs"] = T(g.randn(*(bb + [nn, rng.choice([1, 2])])), "rhs")
+        if fn == "f_solve" and rng.random() < 0.3:
+            a["lhs"] = T(g.randn(*(bb + [2, nn])), "lhs")
+        if fn == "f_pivoted_cholesky":
+            a["rank"] = rng.choice([1, 2, nn])
+        if fn == "f_add_diagonal":
+            a["diag"] = T(g.posvec(nn, bb), "added diagonal")
+        if fn in ("f_root_decomposition", "f_root_inv_decomposition"):
+            a["method"] = rng.choice([None, "cholesky", "symeig", "lanczos"])
+    elif fn in ("detach_", "requires_grad_"):
+        o = world_op(False)
+        if o is None:
+            return None
+        a = {"op": o, "val": rng.random() < 0.5}
+    elif fn == "torch_fn":
+        o = world_op()
+        if o is None:
+            return None
+        r = w.objs[o]
+        nn, bb = r.D.shape[-1], list(r.D.shape[:-2])
+        a = {"op": o, "which": rng.choice(["matmul", "diagonal", "logdet", "solve", "cholesky", "eigh", "add", "mul", "sum", "transpose"])}
+        if a["which"] in ("matmul", "solve"):
+            a["rhs"] = T(g.randn(*(bb + [nn, 2])), "rhs")
+    q = {"k": "util", "fn": fn, "args": a}
+    if g.fault_kinds and g.faults_left > 0 and rng.random() < g.fault_rate:
+        kind = rng.choice([k for k in g.fault_kinds if k != "cb"] or ["crash"])
+        f = {"kind": kind, "u": round(rng.random(), 4)}
+        if kind == "chol_info":
+            f["attempts"] = rng.choice([1, 2, 4])
+        if kind == "linalg_err":
+            f["fn"] = rng.choice(["eigh", "svd", "qr", "eigvalsh"])
+        if kind == "crash":
+            f["v"] = round(rng.random(), 4)
+        q["fault"] = f
+        g.faults_left -= 1
+    ops.append(q)
+    return ops
+
+
+# ----------------------------------------------------------------------------------------------------
+# execution
+
+
+def _run(w, fn, a, get):
+    """Executes one utility call; returns the list of tensors / operators the library handed back."""
+    A = get(a["A"]) if "A" in a else None
+    if fn == "linear_cg":
+        rhs = get(a["rhs"])
+        if a.get("zero_rhs"):
+            rhs = rhs * 0  # harness-owned temporary
+        kw = {}
+        for k in ("n_tridiag", "tolerance", "max_iter", "max_tridiag_iter"):
+            if a.get(k) is not None:
+                kw[k] = a[k]
+        if a.get("initial_guess"):
+            ig = get(a["rhs"])  # the same caller tensor doubles as initial guess (aliasing)
+            kw["initial_guess"] = ig
+        if a.get("precond"):
+            d = get(a["precond"])
+            kw["preconditioner"] = lambda x: x / d.unsqueeze(-1)
+        if kw.get("n_tridiag") and "max_tridiag_iter" in kw and kw.get("max_iter") is not None:
+            kw["max_tridiag_iter"] = min(kw["max_tridiag_iter"], max(kw["max_iter"], 0))
+        use_tensor = (a.get("n_tridiag", 0) == 0)
+        out = U.linear_cg(A if use_tensor else A.matmul, rhs, **kw)
+        return list(out) if isinstance(out, tuple) else [out]
+    if fn == "minres":
+        kw = {}
+        if a.get("shifts"):
+            kw["shifts"] = get(a["shifts"])
+        if a.get("value") is not None:
+            kw["value"] = a["value"]
+        if a.get("max_iter") is not None:
+            kw["max_iter"] = a["max_iter"]
+        if a.get("precond"):
+            d = get(a["precond"])
+            kw["preconditioner"] = lambda x: x / d.unsqueeze(-1)
+        return [minres(A, get(a["rhs"]), **kw)]
+    if fn == "lanczos_tridiag":
+        iv = get(a["init_vecs"]) if a.get("init_vecs") else None
+        q, t = lanczos.lanczos_tridiag(A.matmul, a["max_iter"], dtype=A.dtype, device=A.device, matrix_shape=A.shape[-2:],
+                                       batch_shape=A.shape[:-2], init_vecs=iv)
+        ev, evec = lanczos.lanczos_tridiag_to_diag(t)
+        return [q, t, ev, evec]
+    if fn == "psd_safe_cholesky":
+        kw = {k: a[k] for k in ("jitter", "max_tries") if a.get(k) is not None}
+        return [chol_mod.psd_safe_cholesky(A, upper=a["upper"], **kw)]
+    if fn == "stable_qr":
+        return list(stable_qr(get(a["M"])))
+    if fn == "stable_pinverse":
+        return [stable_pinverse(get(a["M"]))]
+    if fn == "toeplitz":
+        return [toeplitz.toeplitz(get(a["col"]), get(a["row"]))]
+    if fn == "sym_toeplitz":
+        return [toeplitz.sym_toeplitz(get(a["col"]))]
+    if fn == "toeplitz_matmul":
+        return [toeplitz.toeplitz_matmul(get(a["col"]), get(a["row"]), get(a["rhs"]))]
+    if fn == "sym_toeplitz_matmul":
+        return [toeplitz.sym_toeplitz_matmul(get(a["col"]), get(a["rhs"]))]
+    if fn == "toeplitz_getitem":
+        return [toeplitz.toeplitz_getitem(get(a["col"]), get(a["row"]), a["i"], a["j"]), toeplitz.sym_toeplitz_getitem(get(a["col"]), a["i"], a["j"])]
+    if fn == "sym_toeplitz_dqf":
+        return [toeplitz.sym_toeplitz_derivative_quadratic_form(get(a["left"]), get(a["right"]))]
+    if fn == "left_interp":
+        return [interpolation.left_interp(get(a["idx"]), get(a["val"]), get(a["rhs"]))]
+    if fn == "left_t_interp":
+        return [interpolation.left_t_interp(get(a["idx"]), get(a["val"]), get(a["rhs"]), a["output_dim"])]
+    if fn == "make_sparse":
+        sp = sparse.make_sparse_from_indices_and_values(get(a["idx"]), get(a["val"]), a["num_rows"])
+        return [sp.to_dense()]
+    if fn in ("bdsmm", "dsmm", "sparse_getitem", "sparse_repeat", "to_sparse"):
+        M = get(a["M"])
+        sp = sparse.to_sparse(M)
+        if fn == "to_sparse":
+            return [sp.to_dense()]
+        if fn == "bdsmm":
+            return [sparse.bdsmm(sp, get(a["rhs"]))]
+        if fn == "dsmm":
+            return [linear_operator.dsmm(sp, get(a["rhs"]))]
+        if fn == "sparse_getitem":
+            return [sparse.sparse_getitem(sp, (a["i"],)).to_dense()]
+        return [sparse.sparse_repeat(sp, *a["sizes"]).to_dense()]
+    if fn == "inverse_permutation":
+        return [permutation.inverse_permutation(get(a["perm"]))]
+    if fn == "apply_permutation":
+        M = get(a["op"]) if a.get("op") and w.has(a["op"]) else get(a["M"])
+        p = get(a["perm"])
+        if isinstance(M, LinearOperator) and (M.shape[-1] != p.shape[-1] or tuple(M.shape[:-2]) != tuple(p.shape[:-1])):
+            M = get(a["M"])
+        kw = {}
+        if a["which"] in ("left", "both"):
+            kw["left_permutation"] = p
+        if a["which"] in ("right", "both"):
+            kw["right_permutation"] = p
+        out = permutation.apply_permutation(M, **kw)
+        return [out]
+    if fn == "ciq":
+        solves, weights, _, _ = contour_integral_quad(get(a["op"]), get(a["rhs"]), inverse=a["inverse"])
+        return [solves, weights]
+    if fn.startswith("f_"):
+        inp = get(a["input"])
+        if fn == "f_solve":
+            return [linear_operator.solve(inp, get(a["rhs"]), get(a["lhs"])) if a.get("lhs") else linear_operator.solve(inp, get(a["rhs"]))]
+        if fn == "f_inv_quad":
+            return [linear_operator.inv_quad(inp, get(a["rhs"]))]
+        if fn == "f_inv_quad_logdet":
+            return list(linear_operator.inv_quad_logdet(inp, get(a["rhs"]), logdet=True))
+        if fn == "f_root_decomposition":
+            return [linear_operator.root_decomposition(inp, method=a["method"]) if a.get("method") else linear_operator.root_decomposition(inp)]
+        if fn == "f_root_inv_decomposition":
+            return [linear_operator.root_inv_decomposition(inp, method=a["method"]) if a.get("method") else linear_operator.root_inv_decomposition(inp)]
+        if fn == "f_pivoted_cholesky":
+            return [linear_operator.pivoted_cholesky(inp, a["rank"])]
+        if fn == "f_add_diagonal":
+            return [linear_operator.add_diagonal(inp, get(a["diag"]))]
+        if fn == "f_add_jitter":
+            return [linear_operator.add_jitter(inp, 0.1)]
+        if fn == "f_diagonalization":
+            ev, evec = linear_operator.diagonalization(inp)
+            return [ev, evec]
+        if fn == "f_sqrt_inv_matmul":
+            return [linear_operator.sqrt_inv_matmul(inp, get(a["rhs"]))]
+    if fn == "detach_":
+        return [get(a["op"]).detach_()]
+    if fn == "requires_grad_":
+        return [get(a["op"]).requires_grad_(a["val"])]
+    if fn == "torch_fn":
+        op = get(a["op"])
+        wh = a["which"]
+        if wh == "matmul":
+            return [torch.matmul(op, get(a["rhs"]))]
+        if wh == "solve":
+            return [torch.linalg.solve(op, get(a["rhs"]))]
+        if wh == "diagonal":
+            return [torch.diagonal(op, dim1=-2, dim2=-1)]
+        if wh == "logdet":
+            return [torch.logdet(op)]
+        if wh == "cholesky":
+            return [torch.linalg.cholesky(op)]
+        if wh == "eigh":
+            return list(torch.linalg.eigh(op))
+        if wh == "add":
+            return [torch.add(op, op)]
+        if wh == "mul":
+            return [torch.mul(op, 2.0)]
+        if wh == "sum":
+            return [torch.sum(op, dim=-1)]
+        if wh == "transpose":
+            return [torch.transpose(op, -1, -2)]
+    raise KeyError(fn)
+
+
+def _flatten(out):
+    for x in out:
+        if x is None:
+            continue
+        if isinstance(x, (tuple, list)):
+            yield from _flatten(x)
+        else:
+            yield x
 
 
 def op_util(w, i, op):
-    return None
+    fn = op["fn"]
+    a = op.get("args", {})
+    if not w.refs_ok(a):
+        w.log.add(i, "skip-util", fn)
+        return
+    fault = op.get("fault")
+    seed = w._seed(i, "u")
+    # counting pass on clones (fresh twins of every argument), then the real call with the fault armed
+    ftrace = None
+    fcounts = {k: 0 for k in seams.LINALG.counts}
+    if fault:
+        env = {}
+
+        def fget(x):
+            if x in w.tensors:
+                return w.fresh_tensor(x, env)
+            return w.rebuild(x, env)
+
+        seams.RANDN.reseed(seed)
+        seams.LINALG.reset()
+        if fault["kind"] == "crash":
+            seams.CRASH.start_trace()
+        try:
+            _run(w, fn, a, fget)
+        except Exception:
+            pass
+        finally:
+            if fault["kind"] == "crash":
+                ftrace = seams.CRASH.stop_trace()
+        fcounts = dict(seams.LINALG.counts)
+        seams.drain_log()
+    armed = None
+    fired = False
+    seams.LINALG.reset()
+    pre_flags = {}
+    if fn in ("detach_", "requires_grad_") and a.get("op") in w.objs:
+        pass
+    if fault:
+        dummy = type("R", (), {"cb": None})()
+        armed = w._arm(fault, dummy, fcounts, 0, ftrace)
+    seams.RANDN.reseed(seed)
+    out = exc = None
+    try:
+        out = _run(w, fn, a, w.get_live)
+    except Exception as e:
+        exc = e
+    finally:
+        if fault:
+            fired = w._disarm(fault, type("R", (), {"cb": None})())
+    paths = _paths(seams.drain_log())
+    w.stat("utils")
+    w.stat("util_" + fn)
+    for p in paths:
+        w.stat("path_" + p)
+    if fault:
+        w.stat(f"fault_{fault['kind']}_armed")
+        if fired:
+            w.stat(f"fault_{fault['kind']}_fired")
+    outcome = type(exc).__name__ if exc is not None else "ok"
+    shas = []
+    if out is not None:
+        from sim.engine import tensor_sha
+
+        for x in _flatten(out):
+            if torch.is_tensor(x):
+                shas.append(tensor_sha(x))
+    w.log.add(i, "util", fn, a, outcome, shas, armed, fired)
+    w.trace.append(f"#{i} util {fn}({', '.join(f'{k}={v}' for k, v in a.items())})"
+                   f"{' FAULT ' + json.dumps(armed) + (' fired' if fired else ' not fired') if fault else ''} -> {outcome} via {paths or '-'}")
+    # case keys (evidence): function x argument position x layout x path x fault
+    n_tensor_args = 0
+    for k, v in a.items():
+        if isinstance(v, str) and v in w.tensors:
+            n_tensor_args += 1
+            case = (fn, k, w.tensors[v]["spec"]["layout"], tuple(paths), bool(fired))
+            h = hashlib.blake2b(json.dumps(case).encode(), digest_size=8).hexdigest()
+            w.cases13.add(h)
+            w.nontrivial13.add(h)
+    if n_tensor_args == 0:
+        w.cases13.add(hashlib.blake2b(json.dumps((fn, "no-tensor")).encode(), digest_size=8).hexdigest())
+    # the explicitly in-place methods may touch metadata (requires_grad, grad_fn) but never values
+    if fn in ("detach_", "requires_grad_"):
+        for rec in w.tensors.values():
+            rec["snap"].requires_grad = rec["base"].requires_grad
+            rec["vsnap"].requires_grad = rec["view"].requires_grad
+        for _, t_, snap_, base_ in w.returned:
+            snap_.requires_grad = base_.requires_grad
+    w.check_conservation(fn)
+    # results handed back to the caller are caller-owned from now on
+    if out is not None and not w.violations:
+        for j, x in enumerate(_flatten(out)):
+            if torch.is_tensor(x) and not x.is_sparse and x.numel() <= 4096 and len(w.returned) < 40:
+                w.track_tensor(f"result {j} of {fn} at step {i}", x)
+
+
+def _paths(records):
+    from sim.histsim import _paths as p
+
+    return p(records)
